@@ -75,7 +75,7 @@ def gen_case(rng: Rng, i: int, tier: str):
         case["size"] = r.pick(SIZES_OK) if r.chance(0.75) else r.pick(SIZES_BAD)
     else:
         case["fault"] = r.wpick([(3, "flip_data"), (3, "flip_header"), (2, "truncate"), (2, "no_password"), (1, "wrong_password"), (2, "unsupported"), (1, "not7z"), (2, "none"),
-                                 (2, "flip_multi")])
+                                 (2, "flip_multi"), (2, "decoder_error_multi")])
         case["fseed"] = r.randrange(1 << 30)
         case["cmd"] = r.pick(["t", "x"])
     return case
@@ -318,7 +318,16 @@ def self_faults(py7zr, case, work, scratch, cli, viol, res):
         os.chdir(work)
         try:
             with py7zr.SevenZipFile(arc, "w", **kw) as z:
-                z.writeall("src")
+                if fault == "decoder_error_multi":
+                    # one data member per folder: whatever a worker created before its decoder failed is "there" for the
+                    # metadata pass, so nothing else but the worker's error can turn the exit status
+                    z.writestr(r.bytes_(40000), "one.bin")
+                else:
+                    z.writeall("src")
+            if fault == "decoder_error_multi":
+                with py7zr.SevenZipFile(arc, "a") as z:
+                    z.writestr(b"second folder " * 20, "second.txt")
+                model_entries = None
             if fault == "flip_multi":
                 with py7zr.SevenZipFile(arc, "a") as z:
                     z.writestr(b"second folder " * 20, "second.txt")
@@ -334,6 +343,12 @@ def self_faults(py7zr, case, work, scratch, cli, viol, res):
                 off = 32 + r.randrange(max(1, a.main["packinfo"]["sizes"][0]))  # damage in a folder that is not the last one
             d = bytearray(img)
             d[off] ^= 1 << r.randrange(8)
+            img = bytes(d)
+        elif fault == "decoder_error_multi":
+            # the first byte of the first folder's stream becomes an LZMA2 control byte no stream may start with: the decoder
+            # itself raises (not a CRC mismatch), in whichever worker reads that folder
+            d = bytearray(img)
+            d[32 + (a.main["packinfo"]["packpos"] if a.main else 0)] = 0x03
             img = bytes(d)
         elif fault == "flip_header":
             lo = 32 + (a.data_end or 0)
@@ -364,7 +379,7 @@ def self_faults(py7zr, case, work, scratch, cli, viol, res):
                        if ref7z.reader.folder_unpack_size(f) > 0)
         aes_hdr = any(ref7z.codecs.M_AES in hc for hc in (a.header_coders or []))
         needs_pw = bool(aes_data or aes_hdr)
-    must_fail = fault in ("unsupported", "not7z") or needs_pw or (fault in ("flip_data", "flip_header", "truncate", "flip_multi") and not recoverable)
+    must_fail = fault in ("unsupported", "not7z") or needs_pw or (fault in ("flip_data", "flip_header", "truncate", "flip_multi", "decoder_error_multi") and not recoverable)
     c = {"fault": fault, "cmd": cmd}
     if must_fail and st == 0:
         viol("exit_0_on_failure", cmd, "'%s' exited 0 on an archive with fault %r (members not recoverable); output %r" % (cmd, fault, (out + err)[-200:]), **c)
